@@ -62,8 +62,12 @@ def cases(tier, seed):
     # (B) pipeline
     for name, pk, crud, route, app in itertools.product(NAMES, PKS, CRUDS, ROUTES, APPS):
         yield dict(kind="pipeline", app=app, models=[dict(name=name, pk=pk, ncols=2, crud=crud, route=route.format(n=slug(name)))])
-    for cruds, same_file in itertools.product(itertools.product(("C", "RD", "CRD"), repeat=2), (False, True)):
-        yield dict(kind="pipeline", app="rest_api", same_file=same_file, models=[dict(name=n, pk=p, ncols=1, crud=c, route="/api/" + slug(n)) for n, p, c in zip(("Config", "User"), ("explicit", "id"), cruds)])
+    # two models, separate or shared routes file, every pair of primary-key kinds (equal kinds give equal primary-key *names*)
+    for cruds, same_file, pks in itertools.product(itertools.product(("C", "RD", "CRD", "R"), repeat=2), (False, True), itertools.product(PKS, repeat=2)):
+        yield dict(kind="pipeline", app="rest_api", same_file=same_file, models=[dict(name=n, pk=p, ncols=1, crud=c, route="/api/" + slug(n)) for n, p, c in zip(("Config", "User"), pks, cruds)])
+    # three models in one routes file
+    for cruds in itertools.product(("C", "RD", "CRD"), repeat=3):
+        yield dict(kind="pipeline", app="rest_api", same_file=True, models=[dict(name=n, pk=p, ncols=1, crud=c, route="/api/" + slug(n)) for n, p, c in zip(("Config", "User", "Invoice"), ("explicit", "explicit", "by_name"), cruds)])
 
 
 def refs(o, path=""):
@@ -157,7 +161,7 @@ def run(case):
     def mk_v(m):
         def v(clause, expected, observed, **extra):
             sig = dict(ctx)
-            sig.update(clause=clause, cruds=",".join(x["crud"] for x in models), name_class=",".join(sorted({name_class(x["name"]) for x in models})), pk=",".join(x["pk"] for x in models))
+            sig.update(clause=clause, cruds=",".join(x["crud"] for x in models), name_class=",".join(sorted({name_class(x["name"]) for x in models})), pk=",".join(x["pk"] for x in models), pk_has_id=any(x["pk"] == "id" for x in models))
             sig.update(extra)
             viol.append(dict(sig=sig, expected=expected, observed=observed))
 
